@@ -6,6 +6,7 @@ import (
 	"fmt"
 	"sync"
 
+	"free5gclib/milenage"
 	"free5gclib/nas"
 	"free5gclib/nas/nasMessage"
 	"free5gclib/nas/nasTestpacket"
@@ -118,6 +119,30 @@ func init() {
 				return hex.EncodeToString(res) + hex.EncodeToString(ue.Kamf) + hex.EncodeToString(ue.KnasInt[:]) + hex.EncodeToString(ue.KnasEnc[:])
 			}
 		},
+	}
+	// the in-repo Milenage library (free5gclib/milenage): AUTN generation, check and resynchronisation per UE
+	families["milenage"] = func() job {
+		return func(g, i int) string {
+			k, opc, rnd := make([]byte, 16), make([]byte, 16), make([]byte, 16)
+			for j := 0; j < 16; j++ {
+				k[j], opc[j], rnd[j] = byte(g*13+j), byte(g*29+3*j+1), byte(i+g+j*7)
+			}
+			sqn := []byte{0, 0, byte(g), byte(i >> 8), byte(i), 1}
+			amf := []byte{0x80, byte(g)}
+			autn, ik, ck, ak, res := make([]byte, 16), make([]byte, 16), make([]byte, 16), make([]byte, 6), make([]byte, 8)
+			resLen := uint(8)
+			milenage.MilenageGenerate(opc, amf, k, sqn, rnd, autn, ik, ck, ak, res, &resLen)
+			ik2, ck2, res2, auts := make([]byte, 16), make([]byte, 16), make([]byte, 8), make([]byte, 14)
+			rl2 := uint(8)
+			ueSqn := []byte{0, 0, byte(g), byte(i >> 8), byte(i), byte(2 * (i % 2))} // accepted for even i, resynchronisation for odd i
+			rc := milenage.Milenage_check(opc, k, ueSqn, rnd, autn, ik2, ck2, res2, &rl2, auts)
+			sq := make([]byte, 6)
+			rc2 := 9
+			if rc == -2 {
+				rc2 = milenage.Milenage_auts(opc, k, rnd, auts, sq)
+			}
+			return fmt.Sprintf("%x %x %x %x %d %x %x %x %x %d %x", autn, ik, ck, res, rc, ik2, ck2, res2, auts, rc2, sq)
+		}
 	}
 	lineCmds["conc"] = func(in map[string]interface{}) map[string]interface{} {
 		mk, ok := families[str(in, "family")]
